@@ -105,8 +105,11 @@ def build_cuts(names):
     """Build (or reuse) cut_<cfg>.so for the current working tree of REPO. Returns list of paths."""
     out = cut_dir(); os.makedirs(out, exist_ok=True)
     # keep only the two most recent tree hashes (disk)
+    # keep the two most recent other trees, and never delete one that was used in the last 30 minutes (another
+    # check - e.g. a mutation run on a different tree - may be using it right now)
     olds = sorted([d for d in glob.glob(os.path.join(BUILD, 'cut-*')) if d != out], key=os.path.getmtime)
-    for d in olds[:-1]: shutil.rmtree(d, ignore_errors=True)
+    for d in olds[:-2]:
+        if time.time() - os.path.getmtime(d) > 1800: shutil.rmtree(d, ignore_errors=True)
     todo = [n for n in names if not os.path.exists(os.path.join(out, 'cut_%s.so' % n))]
     if any(n.startswith('S-') for n in todo) and not os.path.exists(os.path.join(out, 'ub_handlers.o')):
         r = run(['gcc', '-O1', '-fPIC', '-fvisibility=hidden', '-c', os.path.join(ROOT, 'cut', 'ub_handlers.c'), '-o', os.path.join(out, 'ub_handlers.o')])
